@@ -187,6 +187,15 @@ except Exception as e:
           'transformer validates the regex only, not the replacement template'); sys.exit(1)
 '''
 
+HARD_ERROR_OF_REPLACE = Inst(HardErrorException, _error=Any_)
+
+# the helper introduced by the fix 0dd297e: an invalid replacement template is a HardErrorException
+M.contract(P_REPLACE + ':_StrReplacer._sub',
+           params=dict(self=Inst(replace_impl._StrReplacerIncludingNewLines, _regex=Iface(PatternI), _replacement=Str),
+                       s=Str),
+           returns=Str, ensures={'a string': lambda result: isinstance(result, str)},
+           raises={HardErrorException: {'shape': HARD_ERROR_OF_REPLACE}}, raises_only=(), replay=_replace_replay)
+
 for _cls in ('_StrReplacerIncludingNewLines', '_StrReplacerExcludingNewLines'):
     M.contract('%s:%s.process' % (P_REPLACE, _cls),
                params=dict(self=Inst(getattr(replace_impl, _cls), _regex=Iface(PatternI), _replacement=Str),
